@@ -125,6 +125,27 @@ func T12(rc *RC) {
 		}
 		ev := map[string]*tEvents{} // by object name
 		get := func(obj ssa.Value) *tEvents {
+			// the same tensor seen through an interface value and through its asserted
+			// concrete type (d, ok := x.(*Dense)) is one object
+			for i := 0; i < 8; i++ {
+				switch x := obj.(type) {
+				case *ssa.TypeAssert:
+					obj = x.X
+					continue
+				case *ssa.Extract:
+					if ta, ok := x.Tuple.(*ssa.TypeAssert); ok && x.Index == 0 {
+						obj = ta.X
+						continue
+					}
+				case *ssa.ChangeInterface:
+					obj = x.X
+					continue
+				case *ssa.MakeInterface:
+					obj = x.X
+					continue
+				}
+				break
+			}
 			k := objName(obj)
 			if ev[k] == nil {
 				ev[k] = &tEvents{set: map[string]bool{}, clear: map[string]bool{}, pos: map[string]string{}}
